@@ -656,3 +656,54 @@ def check_typed_getters_concrete(chk, ix):
                              "UserData.%s('name') with the stored value %r gives %r; expected %r (a value that already has the type comes back as it is, "
                              "a text is converted, an unconvertible text is a ValueError)" % (getter, stored, got, want),
                              file=f.file, line=f.lineno, stmt="def " + getter))
+
+
+
+WHAT["Z13"] = "the command line reaches the option parser word for word: nothing is inserted, dropped or reordered - except the one documented '--' after a value-less --color that is followed by an existing path"
+
+
+def check_command_args_unchanged(chk, ix):
+    """Z13: Configuration.make_command_args evaluated on concrete argument lists (os.path.exists answered by the rule)."""
+    chk.rule("Z13", WHAT["Z13"])
+    cc = ix.cls("behave.configuration:Configuration")
+    f = cc.lookup("make_command_args")
+    if f is None:
+        raise AnalysisError("anchor missing: Configuration.make_command_args")
+    existing = {"features/a.feature", "features"}
+    cases = [(["--no-skipped", "-T", "-D", "browser=chrome", "features/a.feature"], None),
+             (["--color", "--no-skipped", "-T", "-D", "browser=chrome"], None),
+             (["--color", "always", "features/a.feature"], None),
+             (["--color=off", "features"], None),
+             (["--color", "features/a.feature", "--stop"], ["--color", "--", "features/a.feature", "--stop"]),
+             ([], None)]
+    for args, want in cases:
+        want = list(args) if want is None else want
+        it = Interp(ix, stubs={"os.path.exists": lambda i, s_, a, k, n: [(s_, "val", a[0] in existing)],
+                               "to_texts": lambda i, s_, a, k, n: [(s_, "val", a[0])]}, name="make_command_args")
+        it.int_sat = 1000
+        it.list_cap = 100
+        st = State()
+        st.frames = []
+        me = st.alloc(HObj(cc, {"verbose": None}, label="config"))
+        lst = st.alloc(HObj("list", kind="list", items=list(args)))
+        try:
+            outs = it.call_function(st, f, [lst], {}, None, self_val=me)
+        except AnalysisError as e:
+            raise AnalysisError("make_command_args(%r) not foldable: %s" % (args, e))
+        chk.absorb(it)
+        chk.instance("Z13")
+        got = None
+        if len(outs) == 1 and outs[0][1] == "val":
+            v = outs[0][2]
+            got = list(outs[0][0].obj(v).items) if isinstance(v, Ref) and outs[0][0].obj(v).items is not None else (list(v) if isinstance(v, (tuple, list)) else None)
+        if got is None and not (len(outs) == 1 and outs[0][1] == "raise"):
+            raise AnalysisError("make_command_args(%r) not foldable: %r" % (args, [(k, v) for _, k, v in outs][:3]))
+        if got == want:
+            chk.ok("Z13", {"command line": args, "handed to the parser": got}, nontrivial_key=tuple(args))
+        elif len(outs) == 1 and outs[0][1] == "raise" and args[-1:] == ["--color"]:
+            chk.ok("Z13", {"command line": args, "raises": outs[0][2].clsname()}, nontrivial_key=tuple(args))
+        else:
+            chk.fail(Finding("Z13", f.fullname, "%s -> %s" % (args, got if got is not None else outs[0][2].clsname()),
+                             "the command line %r reaches the option parser as %r; expected %r (options and -D defines behind an inserted '--' are read as "
+                             "paths: they are lost and the configuration file's values win)" % (args, got if got is not None else "an exception", want),
+                             file=f.file, line=f.lineno, stmt="def make_command_args"))
